@@ -391,12 +391,17 @@ func verifLemmaTraversalComplete(E iface.IPFSLogOrderedEntries, H iface.IPFSLogO
 //@   ensures [iterator-error-leaves-channel-open] err != nil && output != nil ==> !closed(output) && sentlen(output) == old(sentlen(output))
 //@   ensures [iterator-emits-at-most-amount] err == nil && options.Amount != nil && deref(options.Amount) >= 0 ==> sentlen(output) - old(sentlen(output)) <= deref(options.Amount)
 //@   replay iterator
+//@   assert "if options.GTE.Defined() {" [inclusive-bound-seeds-are-exactly-the-named-entries] options.LTE != nil ==> len(start) == len(options.LTE) && (forall i int :: 0 <= i && i < len(options.LTE) ==> start[i] == ent(l)[str(options.LTE[i])])
+//@   assert "if options.GTE.Defined() {" [exclusive-bound-seeds-are-all-predecessors-of-the-bound] options.LTE == nil && len(options.LT) > 0 ==> len(start) == len(ent(l)[str(options.LT[len(options.LT)-1])].Next) && (forall i int :: 0 <= i && i < len(start) ==> start[i] == ent(l)[str(ent(l)[str(options.LT[len(options.LT)-1])].Next[i])])
 //@   loop 0
 //@     invariant validSlice(start) && (start == nil || fresh(start)) && held[l.lock] == 1
+//@     invariant [inclusive-seeds-so-far] len(start) == $k && (forall i int :: 0 <= i && i < $k ==> start[i] == ent(l)[str(options.LTE[i])])
 //@   loop 1
 //@     invariant validSlice(start) && (start == nil || fresh(start))
+//@     invariant [exclusive-seeds-of-the-last-bound-so-far] $k > 0 ==> len(start) == len(ent(l)[str(options.LT[$k-1])].Next) && (forall i int :: 0 <= i && i < len(start) ==> start[i] == ent(l)[str(ent(l)[str(options.LT[$k-1])].Next[i])])
 //@   loop 2
 //@     invariant validSlice(start) && (start == nil || fresh(start))
+//@     invariant [exclusive-seeds-so-far] len(start) == $k && (forall i int :: 0 <= i && i < $k ==> start[i] == ent(l)[str($r[i])])
 //@   loop 3
 //@     invariant !closed(output) && sentlen(output) == old(sentlen(output)) + $k
 //@     loopmodifies chanof(output)
